@@ -58,6 +58,9 @@ func KitchenSink(packageRoot string) *Schema {
 	rec("KeyPart", nil, F("a", P("string")), F("b", P("int64")))
 	rec("ParamPart", nil, F("p", P("string")), Opt("q", P("int32")))
 	s.Add(&TypeDef{Kind: "complexkey", Name: "CK", Namespace: ns, Key: q("KeyPart"), Params: q("ParamPart")})
+	// record-typed defaults written as {} must still receive the nested record's own defaults
+	rec("Settings", nil, Def("theme", P("string"), `"dark"`), Def("size", P("int32"), "3"), Opt("note", P("string")))
+	rec("Job", nil, F("name", P("string")), Def("settings", R(q("Settings")), `{}`), Def("byEnv", M(R(q("Settings"))), `{"prod":{},"dev":{"size":1}}`), Def("history", A(R(q("Settings"))), `[{}]`))
 	// a diamond-free include fan: two records include the same record, which itself includes another one
 	rec("Audited", nil, F("created", P("int64")), F("modified", P("int64")))
 	rec("Entity", []string{"Audited"}, F("urn", P("string")))
